@@ -16,11 +16,14 @@ import (
 	"context"
 	"encoding/json"
 	"fmt"
+	"net"
 	"net/http"
+	"net/http/httptest"
 	"os"
 	"reflect"
 	"sort"
 	"strings"
+	"sync/atomic"
 	"time"
 	_ "time/tzdata"
 	"unicode"
@@ -875,6 +878,17 @@ func runJob(j job, thorough bool) (res result) {
 			res.ViolCount["nil-arg|reverse-call-differs-from-local-call|reverse"]++
 		}
 	}
+	if (j.Transport == rpclab.HTTP || j.Transport == rpclab.FastHTTP || j.Transport == rpclab.FastToHTTP) && !j.CSimple && !j.SSimple && !j.NoMissing {
+		vs, n := dropProbe(j.Transport)
+		res.Cases += n
+		for _, w := range vs {
+			res.Viol = append(res.Viol, viol{Job: j, Fn: "bump", Spelling: "exact", Mode: "connection-dropped-after-execution", Cell: "no-arg", Kind: "function-invoked-more-than-once", What: w})
+			if res.ViolCount == nil {
+				res.ViolCount = map[string]int64{}
+			}
+			res.ViolCount["no-arg|function-invoked-more-than-once|bump"]++
+		}
+	}
 	tp := params(thorough)
 	distinct := map[string]bool{}
 	reported := map[string]int{}
@@ -992,6 +1006,70 @@ func runJob(j job, thorough bool) (res result) {
 	sort.Strings(res.SkippedVals)
 	if e.lab.Pool != nil {
 		res.PoolTasks = e.lab.Pool.Count()
+	}
+	return
+}
+
+// dropProbe: the server runs the function and its connection dies before the answer leaves (a crash, a
+// restart, a proxy that gives up). The caller gets an error - and the function has run once, not once per
+// attempt of an HTTP client that sends the POST again on its own.
+func dropProbe(transport string) (viols []string, cases int64) {
+	svc := core.NewService()
+	var n int32
+	svc.AddFunction(func() int { return int(atomic.AddInt32(&n, 1)) }, "bump")
+	ln, err := net.Listen("tcp", "127.0.0.1:0")
+	if err != nil {
+		return []string{"drop probe: " + err.Error()}, 0
+	}
+	server := &http.Server{}
+	if err := svc.Bind(server); err != nil {
+		return []string{"drop probe: " + err.Error()}, 0
+	}
+	inner := server.Handler
+	var drop int32 = 1
+	server.Handler = http.HandlerFunc(func(w http.ResponseWriter, r *http.Request) {
+		if atomic.LoadInt32(&drop) == 0 {
+			inner.ServeHTTP(w, r)
+			return
+		}
+		inner.ServeHTTP(httptest.NewRecorder(), r) // the function runs, the answer goes nowhere
+		if hj, ok := w.(http.Hijacker); ok {
+			if c, _, err := hj.Hijack(); err == nil {
+				c.Close()
+			}
+		}
+	})
+	go server.Serve(ln)
+	defer server.Close()
+	rpclab.Select(transport)
+	client := core.NewClient("http://" + ln.Addr().String() + "/")
+	client.Timeout = 10 * time.Second
+	defer client.Abort()
+	var proxy struct {
+		Bump func() (int, error)
+	}
+	client.UseService(&proxy)
+	for round := 0; round < 3; round++ {
+		// a call that is answered first, so that the dropped call travels on a connection that has been used
+		// (round 0: on a fresh one)
+		if round > 0 {
+			atomic.StoreInt32(&drop, 0)
+			if _, err := proxy.Bump(); err != nil {
+				viols = append(viols, fmt.Sprintf("%s client: an undisturbed call fails: %v", transport, err))
+				return
+			}
+			atomic.StoreInt32(&drop, 1)
+		}
+		before := atomic.LoadInt32(&n)
+		r, err := proxy.Bump()
+		cases++
+		ran := atomic.LoadInt32(&n) - before
+		switch {
+		case err == nil:
+			viols = append(viols, fmt.Sprintf("%s client: the connection was closed before the answer left, the call returns %d without an error", transport, r))
+		case ran != 1:
+			viols = append(viols, fmt.Sprintf("%s client: one call whose connection is closed by the server after the function has run invokes the function %d times (error to the caller: %v)", transport, ran, err))
+		}
 	}
 	return
 }
